@@ -199,6 +199,24 @@ func (g *pgen) decorate(c *ConvSpec) {
 	case x < wu+25:
 		pre = append(pre, "wrapErrors")
 	}
+	// the wrap mode written on a method overrides the converter's (C12: method > converter > global)
+	convWrap := ""
+	if len(pre) > 0 && strings.HasPrefix(pre[len(pre)-1], "wrapErrors") {
+		convWrap = pre[len(pre)-1]
+	}
+	for _, m := range c.Methods {
+		if g.r.Intn(4) != 0 {
+			continue
+		}
+		switch {
+		case convWrap == "":
+			m.Lines = append(m.Lines, []string{"wrapErrorsUsing example.org/m/werr", "wrapErrors"}[g.r.Intn(2)])
+		case convWrap == "wrapErrors":
+			m.Lines = append(m.Lines, []string{"wrapErrors no", "wrapErrors no", "wrapErrors no", "wrapErrorsUsing example.org/m/werr"}[g.r.Intn(4)])
+		default:
+			m.Lines = append(m.Lines, []string{"wrapErrorsUsing example.org/m/werr", "wrapErrors"}[g.r.Intn(2)])
+		}
+	}
 	var extLines []string
 	underlying := g.r.Intn(100) < w.underlying
 	if underlying {
